@@ -35,9 +35,13 @@ pub mod c01;
 #[cfg(feature = "kit-sim")]
 pub mod c02;
 #[cfg(feature = "kit-sim")]
+pub mod c04;
+#[cfg(feature = "kit-sim")]
 pub mod c05;
 #[cfg(feature = "kit-sim")]
 pub mod c12;
+#[cfg(feature = "kit-sim")]
+pub mod c15;
 #[cfg(feature = "kit-sim")]
 pub mod c09;
 #[cfg(feature = "kit-sim")]
@@ -95,9 +99,13 @@ pub fn dispatch(id: &str, a: &Action) -> i32 {
         #[cfg(feature = "kit-sim")]
         "C02" => act::<c02::C02>(a),
         #[cfg(feature = "kit-sim")]
+        "C04" => act::<c04::C04>(a),
+        #[cfg(feature = "kit-sim")]
         "C05" => act::<c05::C05>(a),
         #[cfg(feature = "kit-sim")]
         "C12" => act::<c12::C12>(a),
+        #[cfg(feature = "kit-sim")]
+        "C15" => act::<c15::C15>(a),
         #[cfg(feature = "kit-sim")]
         "C09" => act::<c09::C09>(a),
         #[cfg(feature = "kit-sim")]
